@@ -99,12 +99,12 @@ Truth(S, cfg) ==
      bytes_index_block |-> FF!OnDisk(S.index),
      bytes_keys |-> SumSeq([i \in 1..Len(S.blocks) |-> SumSeq([j \in 1..Len(S.blocks[i].entries) |-> Len(S.blocks[i].entries[j].k)])]),
      bytes_values |-> SumSeq([i \in 1..Len(S.blocks) |-> SumSeq([j \in 1..Len(S.blocks[i].entries) |-> S.blocks[i].entries[j].vlen])])]
+StatsMatch(tr, m) == m.complete /\ \A f \in DOMAIN tr \cap DOMAIN m : m[f] = tr[f]
 \* m: the ten statistics as reported by mtbl_metadata_* (RMeta) or printed by mtbl_info (Info)
 StatsOk(path, m) ==
     /\ path \in DOMAIN disk
     /\ ("C10" \in judge /\ disk[path].kind = "table" /\ "S" \in DOMAIN disk[path]) =>
-          LET tr == Truth(disk[path].S, disk[path].cfg) IN
-          m.complete /\ \A f \in DOMAIN tr \cap DOMAIN m : m[f] = tr[f]
+          StatsMatch(Truth(disk[path].S, disk[path].cfg), m)
     /\ UNCHANGED vars
 \* mtbl_dump prints the entries, with -k/-v/-K/-V exactly the matching subsequence
 DumpOk(path, kp, vp, mink, minv, ents) ==
@@ -128,8 +128,8 @@ UInit(u) == us' = Upd(us, u, [t |-> <<>>]) /\ UNCHANGED <<disk, wr, rd, mg, so, 
 UAdd(u, k, v) == us' = [us EXCEPT ![u].t = SortSeq(Append(@, [k |-> k, v |-> v]), EntLt)] /\ UNCHANGED <<disk, wr, rd, mg, so, fs, it, pl, judge>>
 UDestroy(u) == us' = Del(us, u) /\ UNCHANGED <<disk, wr, rd, mg, so, fs, it, pl, judge>>
 
-MInit(m, merge, failtok, dupsort) ==
-    /\ mg' = Upd(mg, m, [srcs |-> <<>>, merge |-> merge, failtok |-> failtok, dupsort |-> dupsort])
+MInit(m, merge, failtok, dupsort, mc) ==
+    /\ mg' = Upd(mg, m, [srcs |-> <<>>, merge |-> merge, failtok |-> failtok, dupsort |-> dupsort, mc |-> mc])
     /\ UNCHANGED <<disk, wr, rd, us, so, fs, it, pl, judge>>
 MAdd(m, src) == /\ m \in DOMAIN mg
                 /\ mg' = [mg EXCEPT ![m].srcs = Append(@, src)]
@@ -184,10 +184,20 @@ Seek(i, k) ==
             /\ it' = [it EXCEPT ![i].c = SeekCursor(@, k)]
     /\ UNCHANGED <<disk, wr, rd, us, mg, so, fs, pl, judge>>
 
-NextHit(i, k, v) ==
+\* merge callback discipline (C04): producing an entry folded from n values takes exactly n - 1 calls of this merger's
+\* merge function, all for that key, each on two bags contained in the result. calls: the calls logged during this next.
+CallsOk(i, k, v, calls) ==
+    LET src == it[i].src IN
+    (src.t = "m" /\ mg[src.n].merge) =>
+        LET mine == SelectSeq(calls, LAMBDA c : c.m = mg[src.n].mc)
+            e == it[i].c.t[it[i].c.pos]
+        IN /\ Len(mine) = e.n - 1
+           /\ \A j \in 1..Len(mine) : mine[j].k = k /\ ~mine[j].fail
+NextHit(i, k, v, calls) ==
     /\ i \in DOMAIN it /\ ~it[i].null
     /\ IF it[i].free \/ it[i].broken THEN UNCHANGED it
        ELSE /\ NextOk(it[i].c) /\ ~EntryFails(it[i].c.t[it[i].c.pos], it[i].ft)
+            /\ CallsOk(i, k, v, calls)
             /\ \E c2 \in NextTo(it[i].c, k, v) : it' = [it EXCEPT ![i].c = c2]
     /\ UNCHANGED <<disk, wr, rd, us, mg, so, fs, pl, judge>>
 NextMiss(i) ==
@@ -201,14 +211,14 @@ NextMiss(i) ==
 Close(i) == i \in DOMAIN it /\ it' = Del(it, i) /\ UNCHANGED <<disk, wr, rd, us, mg, so, fs, pl, judge>>
 
 \* mtbl_source_write(src, w): every entry of the source is offered to the writer in order; stops at the first refusal
-SrcWrite(src, w, ok) ==
-    LET t == StripN(Content(src).t)
-        old == wr[w].t
-        \* longest prefix of t that the gate accepts
-        acc(n) == \A j \in 1..n : IF j = 1 THEN AddOk(old, t[1].k) ELSE Lt(t[j-1].k, t[j].k)
-        n == CHOOSE q \in 0..Len(t) : acc(q) /\ (q = Len(t) \/ ~acc(q + 1))
+\* (heavy values are passed as operator arguments: TLC re-evaluates LET definitions inside actions on every use)
+SrcWriteOn(t, w, ok) ==
+    LET old == wr[w].t
+        bad == SelectInSeq([j \in 1..Len(t) |-> IF j = 1 THEN ~AddOk(old, t[1].k) ELSE ~Lt(t[j-1].k, t[j].k)], LAMBDA x : x)
+        n == IF bad = 0 THEN Len(t) ELSE bad - 1          \* longest prefix the gate accepts
     IN /\ w \in DOMAIN wr
        /\ Len(t) > 0 => (ok <=> n = Len(t))               \* an empty source may report failure (no iterator)
        /\ wr' = [wr EXCEPT ![w].t = old \o SubSeq(t, 1, n)]
        /\ UNCHANGED <<disk, rd, us, mg, so, fs, it, pl, judge>>
+SrcWrite(src, w, ok) == SrcWriteOn(StripN(Content(src).t), w, ok)
 ====
